@@ -115,12 +115,31 @@ def prepare(tier):
     _schemas(tier)
 
 
+# rules that differ only in the type of an equal-valued path part or argument (1 / 1.0 / True, 0 / 0.0 / False): an
+# int or bool part addresses a list index or a mapping key, a float part a mapping key only; range(0.0, 5) is
+# undefined where range(0, 5) is not.  All of them are round-tripped in ONE process, in both orders, alone and in pairs
+CONF_RULES = [T.rule(P((("prim", "a"), ("prim", x))), c) for x in (1, 1.0, True, 0, 0.0, False)
+              for c in (L("Value", "equal_to", 3), L("ValueDataType", "equal_to", str))] + \
+             [T.rule(P((("prim", "b"),)), L("Value", "in_range", lo, 5)) for lo in (0, 0.0, False)] + \
+             [T.rule(P((("prim", 1),)), L("Value", "truthy")), T.rule(P((("prim", 1.0),)), L("Value", "truthy"))]
+CONF_DOCS = [{"a": ["3", 3, "x"], "b": 3}, {"a": {1: 3, 0: "3"}, "b": 7}, {"a": {1.0: "q", False: 3}, "b": 3.0},
+             ["x", 0, 5], {1: 0, "b": "3"}, {"a": [3]}]
+
+
 def units(tier):
-    return gen.chunks(len(_schemas(tier)), 24)
+    return gen.chunks(len(_schemas(tier)), 24) + [["CONF", 0], ["CONF", 1]]
 
 
 def run_unit(unit, tier):
     res = Result()
+    if unit[0] == "CONF":
+        pool = CONF_RULES if unit[1] == 0 else CONF_RULES[::-1]
+        for i, r in enumerate(pool):
+            check_case(res, ("schema", (r,)), key=("CONF", unit[1], i), DOCS=CONF_DOCS)
+        for i, (a, b) in enumerate(itertools.permutations(pool, 2)):
+            if a[1] == b[1] or a[1][1][:1] == b[1][1][:1]:      # pairs on the same or sibling paths
+                check_case(res, ("schema", (a, b)), key=("CONF", unit[1], "pair", i), DOCS=CONF_DOCS)
+        return res
     ss = _schemas(tier)
     for i in range(unit[0], unit[1]):
         check_case(res, ss[i], key=(i,))
@@ -130,7 +149,7 @@ def run_unit(unit, tier):
 
 def replay(case):
     res = Result()
-    check_case(res, case["schema"], key=("replay",))
+    check_case(res, case["schema"], key=("replay",), DOCS=CONF_DOCS if case.get("conf") else None)
     return list(res.violations.values())
 
 
@@ -151,10 +170,13 @@ def sig_of(st):
     return "%s|%s|%s" % (shape(r[1]), cshape(r[2]), r[3] if r[3] == "empty" else ("+".join(b for _, b in r[3]) or "nocast"))
 
 
-def check_case(res, st, key):
+def check_case(res, st, key, DOCS=None):
+    DOCS = globals()["DOCS"] if DOCS is None else DOCS
     res.count("evaluations")
     res.state(*key)
     case = {"schema": st}
+    if DOCS is CONF_DOCS:
+        case["conf"] = True
     try:
         if st[0] == "composed":
             from valida.datapath import DataPath
